@@ -275,117 +275,127 @@ Proof. vm_compute. auto. Qed.
    are computed by the coarsening model Coarsen.coarsen_step (aggregation, smoothed aggregation,
    energy-minimising smoothed aggregation, Ruge-Stuben), nothing is supplied.  T8: such a hierarchy
    IS a [build] hierarchy for the transfer operators the coarsening chooses, so T1-T5 hold for it
-   with no reference to implementation-supplied P/R.  Tie: op amgfull (ocaml/amgb) against the
+   with no reference to implementation-supplied P/R.  [prep] = what a coarsening wrapper does to the
+   base operators ([Some] for a class used directly, [as_scalar_prep b] for coarsening::as_scalar
+   on b x b block values in the expanded view).  Tie: op amgfull (ocaml/amgb) against the
    dumps of harness/amg_driver.hpp, exactly (tools/props/C03.py run_full). *)
-From Amgcl Require Import Aggregates Coarsen AmgFull AmgFullProofs.
+From Amgcl Require Import MatOps2 Aggregates Coarsen AmgFull AmgFullProofs.
 
-Theorem C03_full_is_build {S : Scalar} ce dc nt (cop : crs S -> crs S -> crs S -> crs S) junk junkf k pol A lev ls :
-  build_full ce dc nt cop junk junkf k pol A lev = FullOk ls ->
-  ls = build ce dc (lev + Datatypes.S k) cop (full_transfers ce nt cop junk junkf k pol A lev) A lev.
-Proof. exact (build_full_is_build ce dc nt cop junk junkf k pol A lev ls). Qed.
+Theorem C03_full_is_build {S : Scalar} ce dc nt (cop : crs S -> crs S -> crs S -> crs S) junk junkf prep k pol A lev ls :
+  build_full ce dc nt cop junk junkf prep k pol A lev = FullOk ls ->
+  ls = build ce dc (lev + Datatypes.S k) cop (full_transfers ce nt cop junk junkf prep k pol A lev) A lev.
+Proof. exact (build_full_is_build ce dc nt cop junk junkf prep k pol A lev ls). Qed.
 Print Assumptions C03_full_is_build.
 
 (* "the transfer operators chosen on that level": every level carries the (row-sorted) output of
    the coarsening model for that level's matrix and policy state *)
-Theorem C03_full_transfers_from_coarsening {S : Scalar} ce dc nt (cop : crs S -> crs S -> crs S -> crs S) junk junkf k pol A lev ls :
-  build_full ce dc nt cop junk junkf k pol A lev = FullOk ls -> full_chain nt junk junkf pol lev ls.
-Proof. exact (build_full_chain ce dc nt cop junk junkf k pol A lev ls). Qed.
+Theorem C03_full_transfers_from_coarsening {S : Scalar} ce dc nt (cop : crs S -> crs S -> crs S -> crs S) junk junkf prep k pol A lev ls :
+  build_full ce dc nt cop junk junkf prep k pol A lev = FullOk ls -> full_chain nt junk junkf prep pol lev ls.
+Proof. exact (build_full_chain ce dc nt cop junk junkf prep k pol A lev ls). Qed.
 Print Assumptions C03_full_transfers_from_coarsening.
 
-Theorem C03_full_galerkin_chain {S : Scalar} ce dc nt (cop : crs S -> crs S -> crs S -> crs S) junk junkf k pol A lev ls :
-  build_full ce dc nt cop junk junkf k pol A lev = FullOk ls -> chain cop ls /\ head_A ls A.
-Proof. exact (build_full_galerkin_chain ce dc nt cop junk junkf k pol A lev ls). Qed.
+Theorem C03_full_galerkin_chain {S : Scalar} ce dc nt (cop : crs S -> crs S -> crs S -> crs S) junk junkf prep k pol A lev ls :
+  build_full ce dc nt cop junk junkf prep k pol A lev = FullOk ls -> chain cop ls /\ head_A ls A.
+Proof. exact (build_full_galerkin_chain ce dc nt cop junk junkf prep k pol A lev ls). Qed.
 Print Assumptions C03_full_galerkin_chain.
 
-Theorem C03_full_last_level_rule {S : Scalar} ce dc nt (cop : crs S -> crs S -> crs S -> crs S) junk junkf k pol A lev ls d :
-  build_full ce dc nt cop junk junkf k pol A lev = FullOk ls ->
+Theorem C03_full_last_level_rule {S : Scalar} ce dc nt (cop : crs S -> crs S -> crs S -> crs S) junk junkf prep k pol A lev ls d :
+  build_full ce dc nt cop junk junkf prep k pol A lev = FullOk ls ->
   match last ls d with
   | LSolve A' => nrows A' <= ce /\ dc = true
   | LLast A' => nrows A' <= ce -> dc = false
   | LMid _ _ _ => False
   end.
-Proof. exact (build_full_last_rule ce dc nt cop junk junkf k pol A lev ls d). Qed.
+Proof. exact (build_full_last_rule ce dc nt cop junk junkf prep k pol A lev ls d). Qed.
 Print Assumptions C03_full_last_level_rule.
 
-Theorem C03_full_number_of_levels {S : Scalar} ce dc nt (cop : crs S -> crs S -> crs S -> crs S) junk junkf k pol A lev ls :
-  build_full ce dc nt cop junk junkf k pol A lev = FullOk ls -> length ls <= Datatypes.S k.
-Proof. exact (build_full_length ce dc nt cop junk junkf k pol A lev ls). Qed.
+Theorem C03_full_number_of_levels {S : Scalar} ce dc nt (cop : crs S -> crs S -> crs S -> crs S) junk junkf prep k pol A lev ls :
+  build_full ce dc nt cop junk junkf prep k pol A lev = FullOk ls -> length ls <= Datatypes.S k.
+Proof. exact (build_full_length ce dc nt cop junk junkf prep k pol A lev ls). Qed.
 Print Assumptions C03_full_number_of_levels.
 
 (* the constructor amg(M, prm) with the coarsening policy pol *)
-Theorem C03_full_init_is_init {S : Scalar} ce dc ml nt junk junkf (pol : @policy S) M ls :
-  amg_init_full ce dc ml nt junk junkf pol M = FullOk ls ->
-  ls = amg_init ce dc (eff_levels ml) (policy_cop pol) (init_transfers ce ml nt junk junkf pol M) M.
-Proof. exact (amg_init_full_is_amg_init ce dc ml nt junk junkf pol M ls). Qed.
+Theorem C03_full_init_is_init {S : Scalar} ce dc ml nt junk junkf prep (pol : @policy S) M ls :
+  amg_init_full ce dc ml nt junk junkf prep pol M = FullOk ls ->
+  ls = amg_init ce dc (eff_levels ml) (policy_cop pol) (init_transfers ce ml nt junk junkf prep pol M) M.
+Proof. exact (amg_init_full_is_amg_init ce dc ml nt junk junkf prep pol M ls). Qed.
 Print Assumptions C03_full_init_is_init.
 
-Theorem C03_full_init_chain {S : Scalar} ce dc ml nt junk junkf (pol : @policy S) M ls :
-  amg_init_full ce dc ml nt junk junkf pol M = FullOk ls ->
-  chain (policy_cop pol) ls /\ head_A ls (sort_rows M) /\ full_chain nt junk junkf pol 0 ls.
-Proof. exact (amg_init_full_chain ce dc ml nt junk junkf pol M ls). Qed.
+Theorem C03_full_init_chain {S : Scalar} ce dc ml nt junk junkf prep (pol : @policy S) M ls :
+  amg_init_full ce dc ml nt junk junkf prep pol M = FullOk ls ->
+  chain (policy_cop pol) ls /\ head_A ls (sort_rows M) /\ full_chain nt junk junkf prep pol 0 ls.
+Proof. exact (amg_init_full_chain ce dc ml nt junk junkf prep pol M ls). Qed.
 Print Assumptions C03_full_init_chain.
 
-Theorem C03_full_init_levels {S : Scalar} ce dc ml nt junk junkf (pol : @policy S) M ls :
-  amg_init_full ce dc ml nt junk junkf pol M = FullOk ls -> length ls <= Nat.max ml 1.
-Proof. exact (amg_init_full_levels ce dc ml nt junk junkf pol M ls). Qed.
+Theorem C03_full_init_levels {S : Scalar} ce dc ml nt junk junkf prep (pol : @policy S) M ls :
+  amg_init_full ce dc ml nt junk junkf prep pol M = FullOk ls -> length ls <= Nat.max ml 1.
+Proof. exact (amg_init_full_levels ce dc ml nt junk junkf prep pol M ls). Qed.
 Print Assumptions C03_full_init_levels.
 
-Theorem C03_full_init_last_level_rule {S : Scalar} ce dc ml nt junk junkf (pol : @policy S) M ls d :
-  amg_init_full ce dc ml nt junk junkf pol M = FullOk ls ->
+Theorem C03_full_init_last_level_rule {S : Scalar} ce dc ml nt junk junkf prep (pol : @policy S) M ls d :
+  amg_init_full ce dc ml nt junk junkf prep pol M = FullOk ls ->
   match last ls d with
   | LSolve A' => nrows A' <= ce /\ dc = true
   | LLast A' => nrows A' <= ce -> dc = false
   | LMid _ _ _ => False
   end.
-Proof. exact (amg_init_full_last_rule ce dc ml nt junk junkf pol M ls d). Qed.
+Proof. exact (amg_init_full_last_rule ce dc ml nt junk junkf prep pol M ls d). Qed.
 Print Assumptions C03_full_init_last_level_rule.
 
 (* rebuild *)
-Theorem C03_full_rebuild_keeps_transfers_and_chain {S : Scalar} ce dc nt (cop : crs S -> crs S -> crs S -> crs S) junk junkf k pol A ls M' :
-  build_full ce dc nt cop junk junkf k pol A 0 = FullOk ls ->
+Theorem C03_full_rebuild_keeps_transfers_and_chain {S : Scalar} ce dc nt (cop : crs S -> crs S -> crs S -> crs S) junk junkf prep k pol A ls M' :
+  build_full ce dc nt cop junk junkf prep k pol A 0 = FullOk ls ->
   chain cop (amg_rebuild cop ls M') /\ head_A (amg_rebuild cop ls M') (sort_rows M') /\
   transfers_of (amg_rebuild cop ls M') = transfers_of ls.
-Proof. exact (build_full_rebuild_chain ce dc nt cop junk junkf k pol A ls M'). Qed.
+Proof. exact (build_full_rebuild_chain ce dc nt cop junk junkf prep k pol A ls M'). Qed.
 Print Assumptions C03_full_rebuild_keeps_transfers_and_chain.
 
-Theorem C03_full_rebuild_is_fresh_build {S : Scalar} ce dc ml nt junk junkf (pol : @policy S) M M' ls :
-  amg_init_full ce dc ml nt junk junkf pol M = FullOk ls -> nrows M' = nrows M ->
+Theorem C03_full_rebuild_is_fresh_build {S : Scalar} ce dc ml nt junk junkf prep (pol : @policy S) M M' ls :
+  amg_init_full ce dc ml nt junk junkf prep pol M = FullOk ls -> nrows M' = nrows M ->
   amg_rebuild (policy_cop pol) ls M' =
-  amg_init ce dc (eff_levels ml) (policy_cop pol) (init_transfers ce ml nt junk junkf pol M) M'.
-Proof. exact (amg_init_full_rebuild_fresh ce dc ml nt junk junkf pol M M' ls). Qed.
+  amg_init ce dc (eff_levels ml) (policy_cop pol) (init_transfers ce ml nt junk junkf prep pol M) M'.
+Proof. exact (amg_init_full_rebuild_fresh ce dc ml nt junk junkf prep pol M M' ls). Qed.
 Print Assumptions C03_full_rebuild_is_fresh_build.
 
-Theorem C03_full_rebuild_is_fresh_build_from_stored {S : Scalar} ce dc ml nt junk junkf (pol : @policy S) M M' ls :
-  amg_init_full ce dc ml nt junk junkf pol M = FullOk ls -> nrows M' = nrows M ->
+Theorem C03_full_rebuild_is_fresh_build_from_stored {S : Scalar} ce dc ml nt junk junkf prep (pol : @policy S) M M' ls :
+  amg_init_full ce dc ml nt junk junkf prep pol M = FullOk ls -> nrows M' = nrows M ->
   amg_rebuild (policy_cop pol) ls M' = amg_init ce dc (eff_levels ml) (policy_cop pol) (transfers_of ls) M'.
-Proof. exact (amg_init_full_rebuild_stored ce dc ml nt junk junkf pol M M' ls). Qed.
+Proof. exact (amg_init_full_rebuild_stored ce dc ml nt junk junkf prep pol M M' ls). Qed.
 Print Assumptions C03_full_rebuild_is_fresh_build_from_stored.
 
-Theorem C03_full_rebuild_restores_original {S : Scalar} ce dc ml nt junk junkf (pol : @policy S) M M' ls :
-  amg_init_full ce dc ml nt junk junkf pol M = FullOk ls -> nrows M' = nrows M ->
+Theorem C03_full_rebuild_restores_original {S : Scalar} ce dc ml nt junk junkf prep (pol : @policy S) M M' ls :
+  amg_init_full ce dc ml nt junk junkf prep pol M = FullOk ls -> nrows M' = nrows M ->
   amg_rebuild (policy_cop pol) (amg_rebuild (policy_cop pol) ls M') M = ls.
-Proof. exact (amg_init_full_rebuild_restore ce dc ml nt junk junkf pol M M' ls). Qed.
+Proof. exact (amg_init_full_rebuild_restore ce dc ml nt junk junkf prep pol M M' ls). Qed.
 Print Assumptions C03_full_rebuild_restores_original.
 
-Theorem C03_full_rebuild_history {S : Scalar} ce dc ml nt junk junkf (pol : @policy S) M (Ms : list (crs S)) M' ls :
-  amg_init_full ce dc ml nt junk junkf pol M = FullOk ls ->
+Theorem C03_full_rebuild_history {S : Scalar} ce dc ml nt junk junkf prep (pol : @policy S) M (Ms : list (crs S)) M' ls :
+  amg_init_full ce dc ml nt junk junkf prep pol M = FullOk ls ->
   Forall (fun X => nrows X = nrows M) Ms -> nrows M' = nrows M ->
   amg_rebuild (policy_cop pol) (fold_left (amg_rebuild (policy_cop pol)) Ms ls) M' =
-  amg_init ce dc (eff_levels ml) (policy_cop pol) (init_transfers ce ml nt junk junkf pol M) M'.
-Proof. exact (amg_init_full_rebuild_history ce dc ml nt junk junkf pol M Ms M' ls). Qed.
+  amg_init ce dc (eff_levels ml) (policy_cop pol) (init_transfers ce ml nt junk junkf prep pol M) M'.
+Proof. exact (amg_init_full_rebuild_history ce dc ml nt junk junkf prep pol M Ms M' ls). Qed.
 Print Assumptions C03_full_rebuild_history.
 
-(* R = adjoint P for aggregation / smoothed aggregation / Ruge-Stuben: by construction *)
+(* R = adjoint P for aggregation / smoothed aggregation / Ruge-Stuben: by construction.  Through a
+   wrapper: P and R are the wrapped, row-sorted images of some P0 and of transpose P0 *)
+Theorem C03_full_restriction_is_transpose_wrapped {S : Scalar} nt junk junkf prep (ls : list (@ldesc S)) (pol : @policy S) lev :
+  policy_adjoint pol = true -> full_chain nt junk junkf prep pol lev ls ->
+  forall n A P R, nth_error ls n = Some (LMid A P R) ->
+  exists P0 Pc Rc, prep P0 = Some Pc /\ prep (transpose P0) = Some Rc /\ P = sort_rows Pc /\ R = sort_rows Rc.
+Proof. exact (full_chain_adjoint nt junk junkf prep ls pol lev). Qed.
+Print Assumptions C03_full_restriction_is_transpose_wrapped.
+
 Theorem C03_full_restriction_is_transpose {S : Scalar} nt junk junkf (ls : list (@ldesc S)) (pol : @policy S) lev :
-  policy_adjoint pol = true -> full_chain nt junk junkf pol lev ls ->
+  policy_adjoint pol = true -> full_chain nt junk junkf (@Some (crs S)) pol lev ls ->
   forall n A P R, nth_error ls n = Some (LMid A P R) ->
   exists P0, P = sort_rows P0 /\ R = sort_rows (transpose P0).
-Proof. exact (full_chain_adjoint nt junk junkf ls pol lev). Qed.
+Proof. exact (full_chain_adjoint_direct nt junk junkf ls pol lev). Qed.
 Print Assumptions C03_full_restriction_is_transpose.
 
 (* dense Galerkin product at every level (commutative ring) *)
-Theorem C03_full_levels_dense {S : Scalar} (Srt : Sring S) ce dc ml nt junk junkf (pol : @policy S) (M : crs S) ls :
-  amg_init_full ce dc ml nt junk junkf pol M = FullOk ls ->
+Theorem C03_full_levels_dense {S : Scalar} (Srt : Sring S) ce dc ml nt junk junkf prep (pol : @policy S) (M : crs S) ls :
+  amg_init_full ce dc ml nt junk junkf prep pol M = FullOk ls ->
   forall n A P R next i j,
   nth_error ls n = Some (LMid A P R) -> nth_error ls (Datatypes.S n) = Some next ->
   wf A = true -> wf R = true ->
@@ -394,11 +404,11 @@ Theorem C03_full_levels_dense {S : Scalar} (Srt : Sring S) ce dc ml nt junk junk
   | Some s => sumn (fun k => mget R i k * sumn (fun l => mget A k l * mget P l j) (ncols A)) (ncols R) * s
   | None => sumn (fun k => mget R i k * sumn (fun l => mget A k l * mget P l j) (ncols A)) (ncols R)
   end.
-Proof. exact (amg_init_full_dense Srt ce dc ml nt junk junkf pol M ls). Qed.
+Proof. exact (amg_init_full_dense Srt ce dc ml nt junk junkf prep pol M ls). Qed.
 Print Assumptions C03_full_levels_dense.
 
-Theorem C03_full_levels_dense_Qc ce dc ml nt junk junkf (pol : @policy QcS) (M : crs QcS) ls :
-  amg_init_full ce dc ml nt junk junkf pol M = FullOk ls ->
+Theorem C03_full_levels_dense_Qc ce dc ml nt junk junkf prep (pol : @policy QcS) (M : crs QcS) ls :
+  amg_init_full ce dc ml nt junk junkf prep pol M = FullOk ls ->
   forall n A P R next i j,
   nth_error ls n = Some (LMid A P R) -> nth_error ls (Datatypes.S n) = Some next ->
   wf A = true -> wf R = true ->
@@ -407,7 +417,7 @@ Theorem C03_full_levels_dense_Qc ce dc ml nt junk junkf (pol : @policy QcS) (M :
   | Some s => sumn (fun k => mget R i k * sumn (fun l => mget A k l * mget P l j) (ncols A)) (ncols R) * s
   | None => sumn (fun k => mget R i k * sumn (fun l => mget A k l * mget P l j) (ncols A)) (ncols R)
   end.
-Proof. exact (amg_init_full_dense QcS_ring ce dc ml nt junk junkf pol M ls). Qed.
+Proof. exact (amg_init_full_dense QcS_ring ce dc ml nt junk junkf prep pol M ls). Qed.
 Print Assumptions C03_full_levels_dense_Qc.
 
 (* non-vacuity: the 1D Laplacian exM coarsened inside the model by plain aggregation
@@ -422,13 +432,108 @@ Definition exPolR : @policy QcS := PolRS (qc 1 4) (qc 1 5) true.
 Definition ex_shape (r : @full_result QcS) : option (list bool * list nat) :=
   match r with FullOk ls => Some (map is_mid ls, map (fun l => nrows (ld_A l)) ls) | _ => None end.
 Example C03_example_full_hierarchies :
-  ex_shape (amg_init_full 1 true 10 1 exJunk exJunkF exPolA exM) = Some ([true; true; false], [4; 2; 1]%nat) /\
-  ex_shape (amg_init_full 1 true 10 1 exJunk exJunkF exPolS exM) = Some ([true; true; false], [4; 2; 1]%nat) /\
-  ex_shape (amg_init_full 1 true 10 1 exJunk exJunkF exPolR exM) = Some ([true; true; false], [4; 2; 1]%nat) /\
-  ex_shape (amg_init_full 1 false 2 1 exJunk exJunkF exPolA exM) = Some ([true; false], [4; 2]%nat) /\
-  match amg_init_full 1 true 10 1 exJunk exJunkF exPolA exM with
+  ex_shape (amg_init_full 1 true 10 1 exJunk exJunkF (@Some (crs QcS)) exPolA exM) = Some ([true; true; false], [4; 2; 1]%nat) /\
+  ex_shape (amg_init_full 1 true 10 1 exJunk exJunkF (@Some (crs QcS)) exPolS exM) = Some ([true; true; false], [4; 2; 1]%nat) /\
+  ex_shape (amg_init_full 1 true 10 1 exJunk exJunkF (@Some (crs QcS)) exPolR exM) = Some ([true; true; false], [4; 2; 1]%nat) /\
+  ex_shape (amg_init_full 1 false 2 1 exJunk exJunkF (@Some (crs QcS)) exPolA exM) = Some ([true; false], [4; 2]%nat) /\
+  match amg_init_full 1 true 10 1 exJunk exJunkF (@Some (crs QcS)) exPolA exM with
   | FullOk ls => dump_ok 1 true true (Some (qc 1 2)) (show_hier (amg_rebuild (policy_cop exPolA) ls (mscale exM (exq 3)))) = true
                  /\ dump_ok 1 true true None (show_hier ls) = false
   | _ => False
   end.
 Proof. vm_compute. repeat split; reflexivity. Qed.
+
+(* ------------------------------------------------------------------ *)
+(* T5 for NON-COMMUTATIVE value types (AmgBlockNc.v).  The dense statements keep every product in
+   the operand order of the code, so they hold verbatim over any non-commutative ring, in
+   particular for amgcl::static_matrix<T,b,b> blocks (Scalar instance BlockInst.BlockS); T9: in the
+   EXPANDED view (scalar cell (i,j) of a block-valued matrix = cell (i mod b, j mod b) of block
+   (i/b, j/b): what the block tie prints) the block Galerkin product satisfies the scalar statement
+   with expanded sizes -- the expansion commutes with R*A*P, with scaling by a base scalar and with
+   row sorting.  This is the theorem behind evaluating the scalar oracle on expanded dumps. *)
+From Amgcl Require Import NcRing BlockInst NcRingBlock AmgBlockNc.
+
+Theorem C03_galerkin_dense_nc {S : Scalar} (Hnc : ncring_theory S) (A P R : crs S) i j :
+  wf A = true -> wf R = true ->
+  mget (Amg.galerkin A P R) i j =
+  sumn (fun k => mget R i k * sumn (fun l => mget A k l * mget P l j) (ncols A)) (ncols R).
+Proof. exact (nc_galerkin_dense Hnc A P R i j). Qed.
+Print Assumptions C03_galerkin_dense_nc.
+
+Theorem C03_scaled_galerkin_dense_nc {S : Scalar} (Hnc : ncring_theory S) s (A P R : crs S) i j :
+  wf A = true -> wf R = true ->
+  mget (Amg.scaled_galerkin s A P R) i j =
+  sumn (fun k => mget R i k * sumn (fun l => mget A k l * mget P l j) (ncols A)) (ncols R) * s.
+Proof. exact (nc_scaled_galerkin_dense Hnc s A P R i j). Qed.
+Print Assumptions C03_scaled_galerkin_dense_nc.
+
+Theorem C03_chain_levels_dense_nc {S : Scalar} (Hnc : ncring_theory S) (ls : list (@ldesc S)) :
+  chain (@Amg.galerkin S) ls -> forall n A P R next i j,
+  nth_error ls n = Some (LMid A P R) -> nth_error ls (Datatypes.S n) = Some next ->
+  wf A = true -> wf R = true ->
+  mget (ld_A next) i j =
+  sumn (fun k => mget R i k * sumn (fun l => mget A k l * mget P l j) (ncols A)) (ncols R).
+Proof. exact (nc_chain_galerkin_dense Hnc ls). Qed.
+Print Assumptions C03_chain_levels_dense_nc.
+
+Theorem C03_chain_levels_dense_scaled_nc {S : Scalar} (Hnc : ncring_theory S) s (ls : list (@ldesc S)) :
+  chain (Amg.scaled_galerkin s) ls -> forall n A P R next i j,
+  nth_error ls n = Some (LMid A P R) -> nth_error ls (Datatypes.S n) = Some next ->
+  wf A = true -> wf R = true ->
+  mget (ld_A next) i j =
+  sumn (fun k => mget R i k * sumn (fun l => mget A k l * mget P l j) (ncols A)) (ncols R) * s.
+Proof. exact (nc_chain_scaled_galerkin_dense Hnc s ls). Qed.
+Print Assumptions C03_chain_levels_dense_scaled_nc.
+
+(* blocks over a commutative ring *)
+Theorem C03_block_galerkin_dense (S0 : Scalar) (b : nat) (Srt : Sring S0) (A P R : crs (BlockS S0 b)) i j :
+  wf A = true -> wf R = true ->
+  mget (Amg.galerkin A P R) i j =
+  sumn (fun k => mget R i k * sumn (fun l => mget A k l * mget P l j) (ncols A)) (ncols R).
+Proof. exact (block_galerkin_dense S0 b Srt A P R i j). Qed.
+Print Assumptions C03_block_galerkin_dense.
+
+Theorem C03_block_expansion_galerkin (S0 : Scalar) (b : nat) (Srt : Sring S0) (Hb : 0 < b) (A P R : crs (BlockS S0 b)) i j :
+  wf A = true -> wf R = true ->
+  xget S0 b (Amg.galerkin A P R) i j =
+  sumn (fun k => xget S0 b R i k * sumn (fun l => xget S0 b A k l * xget S0 b P l j) (ncols A * b)%nat) (ncols R * b)%nat.
+Proof. exact (xget_galerkin S0 b Srt Hb A P R i j). Qed.
+Print Assumptions C03_block_expansion_galerkin.
+
+Theorem C03_block_expansion_scaled_galerkin (S0 : Scalar) (b : nat) (Srt : Sring S0) (Hb : 0 < b) (c : S0) (A P R : crs (BlockS S0 b)) i j :
+  wf A = true -> wf R = true ->
+  xget S0 b (Amg.scaled_galerkin (blk_embed S0 b c : BlockS S0 b) A P R) i j =
+  sumn (fun k => xget S0 b R i k * sumn (fun l => xget S0 b A k l * xget S0 b P l j) (ncols A * b)%nat) (ncols R * b)%nat * c.
+Proof. exact (xget_scaled_galerkin S0 b Srt Hb c A P R i j). Qed.
+Print Assumptions C03_block_expansion_scaled_galerkin.
+
+Theorem C03_block_expansion_sort_rows (S0 : Scalar) (b : nat) (Srt : Sring S0) (A : crs (BlockS S0 b)) i j :
+  xget S0 b (sort_rows A) i j = xget S0 b A i j.
+Proof. exact (xget_sort_rows S0 b Srt A i j). Qed.
+Print Assumptions C03_block_expansion_sort_rows.
+
+Theorem C03_block_expansion_galerkin_Qc (b : nat) (Hb : 0 < b) (A P R : crs (BlockS QcS b)) i j :
+  wf A = true -> wf R = true ->
+  xget QcS b (Amg.galerkin A P R) i j =
+  sumn (fun k => xget QcS b R i k * sumn (fun l => xget QcS b A k l * xget QcS b P l j) (ncols A * b)%nat) (ncols R * b)%nat.
+Proof. exact (xget_galerkin QcS b QcS_ring Hb A P R i j). Qed.
+Print Assumptions C03_block_expansion_galerkin_Qc.
+
+(* R = adjoint P: transpose() without commutativity, and in the expanded view of blocks *)
+Theorem C03_transpose_dense_nc {S : Scalar} (Hnc : ncring_theory S)
+  (sadj_add : forall a b : S, sadj (a + b) = sadj a + sadj b) (sadj_0 : sadj (@s0 S) = s0) (A : crs S) i j :
+  j < ncols A -> mget (transpose A) j i = sadj (mget A i j).
+Proof. exact (nc_transpose_dense Hnc sadj_add sadj_0 A i j). Qed.
+Print Assumptions C03_transpose_dense_nc.
+
+Theorem C03_block_expansion_adjoint (S0 : Scalar) (b : nat) (Srt : Sring S0) (Hb : 0 < b)
+  (sadj_add : forall x y : S0, sadj (x + y) = sadj x + sadj y) (sadj_0 : sadj (@s0 S0) = s0)
+  (A : crs (BlockS S0 b)) i j :
+  (j < ncols A * b)%nat -> xget S0 b (transpose A) j i = sadj (xget S0 b A i j).
+Proof. exact (xget_transpose S0 b Srt Hb sadj_add sadj_0 A i j). Qed.
+Print Assumptions C03_block_expansion_adjoint.
+
+Theorem C03_block_expansion_adjoint_Qc (b : nat) (Hb : 0 < b) (A : crs (BlockS QcS b)) i j :
+  (j < ncols A * b)%nat -> xget QcS b (transpose A) j i = xget QcS b A i j.
+Proof. exact (xget_transpose QcS b QcS_ring Hb (fun x y => eq_refl) eq_refl A i j). Qed.
+Print Assumptions C03_block_expansion_adjoint_Qc.
